@@ -7,7 +7,14 @@ handler object is exercised with complete / incomplete / None-holding /
 case-duplicate / upper-cased maps and compared with the entry list the reference
 model predicts (own items in schema order after all nested sections, nested
 sections in closing order, schema handler last).
+
+Wave 3 adds the axis HOW THE TEXT IS LOADED (see ROUTES below): every accepted node is loaded again
+with every single command-line override that addresses a declared key of a section the text holds
+(and of the top level), with override lists, through loader objects that serve two loads, through
+an ExtendedConfigLoader without options and through %include; the oracle is the reference entry list
+of the text edited as the override says (vz/ref/overrides.py).
 """
+import io
 import itertools
 
 from vz import core
@@ -16,6 +23,7 @@ from vz.gen import schema as M
 from vz.harness import load as H
 from vz.harness.dt import Wrapped
 from vz.ref import match as R
+from vz.ref import overrides as OV
 from dataclasses import replace
 
 
@@ -411,6 +419,292 @@ def check_callables(handler, exp, uniq, tier, bad, acc):
     return True
 
 
+# ---------------------------------------------------------------------------
+# axis "how the text is loaded" (wave 3).  The statement speaks of "the handler object returned with
+# a configuration" - whichever public entry point produced the pair: loadConfigFile / loadConfig with
+# or without override specifiers, a ConfigLoader / ExtendedConfigLoader object (which may serve several
+# loads), text that arrives through %include.  The entries are those of the items "instantiated by the
+# text"; an override replaces values, it neither adds nor removes an instantiated item, and the value
+# delivered is "the same value that the value tree holds".
+
+ROUTES = ("override", "override-list", "same-loader-two-loads",
+          "extended-loader-without-options+whole-text-through-include", "same-loader-after-another-text")
+ROUTES_QUICK = ROUTES[:4]
+PART_URL = "file:///v/part.conf"
+
+
+def ov_value(dt, second=False):
+    if dt in ("string", "null"):
+        return "ow" if second else "ov"
+    if dt == "integer":
+        return "11" if second else "9"
+    toks = [t for t in M.VALUE_TOKENS[dt] if R.convert(dt, t) is not R.BAD]
+    return toks[-1 if second else 0]
+
+
+def route_specs(S, events, tier):
+    """Every override specifier 'path/key=value' whose path addresses a section the text holds (each
+    component spelled by the section's name or by its type - the last one by both; the letter case of a
+    component is C14's subject) - or the top level - and whose key is a declared key / multikey of that container (for a
+    wildcard key: the undeclared name 'zz').  -> [(spec, n_components, spelling, is_multi, spec2, target)]
+    where spec2 supplies a second value for the same key and target identifies (container, key)."""
+    top = OV.section_tree(events)
+    out = []
+
+    def keys(node, prefix, how):
+        tname = node.type.lower() if node.type else None
+        for it in M.eff_items(S, tname):
+            if isinstance(it, (M.Key, M.MultiKey)):
+                k = "zz" if it.name == "+" else it.name
+                path = "/".join(prefix + (k,))
+                out.append((path + "=" + ov_value(it.datatype), len(prefix) + 1, how,
+                            isinstance(it, M.MultiKey), path + "=" + ov_value(it.datatype, True),
+                            (id(node), k)))
+
+    def walk(node, prefix, how):
+        keys(node, prefix, how)
+        for ch in node.children:
+            if not isinstance(ch, OV.Sec):
+                continue
+            sp = []
+            if ch.name:
+                sp.append((ch.name.lower(), "name"))
+            sp.append((ch.type.lower(), "type"))
+            sp = [(c, h) for c, h in sp if OV.resolve(node, c) is ch]
+            for i, (c, h) in enumerate(sp):
+                if i == 0:
+                    walk(ch, prefix + (c,), h)
+                else:
+                    keys(ch, prefix + (c,), h)
+    walk(top, (), "top")
+    return out
+
+
+def load_on(ld, text, url=H.URL):
+    import ZConfig
+    try:
+        cfg, h = ld.loadFile(io.StringIO(text), url)
+        return ("ok", cfg, h)
+    except ZConfig.ConfigurationError as e:
+        return ("rejected", e, None)
+    except Exception as e:
+        return ("internal", e, None)
+
+
+_INCL = {}
+
+
+def including_loader(base, sch, part_text):
+    """a loader of class `base` whose public openResource serves PART_URL from memory"""
+    cls = _INCL.get(base)
+    if cls is None:
+        class IncludingLoader(base):
+            part = None
+
+            def openResource(self, url):
+                if str(url) == PART_URL:
+                    return self.createResource(io.StringIO(self.part), PART_URL)
+                return base.openResource(self, url)
+        cls = _INCL[base] = IncludingLoader
+    ld = cls(sch)
+    ld.part = part_text
+    return ld
+
+
+def make_loader(sch, specs):
+    import ZConfig.cmdline
+    import ZConfig.loader
+    if not specs:
+        return ZConfig.loader.ConfigLoader(sch)
+    ld = ZConfig.cmdline.ExtendedConfigLoader(sch)
+    for sp in specs:
+        ld.addOption(sp)
+    return ld
+
+
+def check_delivery(cfg, handler, exp, bad):
+    """len, the complete map (sequence, values, identity with the tree's objects) and all-or-nothing with
+    the first name missing.  -> the recorded calls, or None after a violation."""
+    names = [n for n, _ in exp]
+    try:
+        n = len(handler)
+    except Exception as e:
+        bad("len-raises", core.exc_desc(e), len(exp))
+        return None
+    if n != len(exp):
+        bad("wrong-length", n, len(exp))
+        return None
+    uniq = sorted(set(names))
+    ids = set()
+    object_ids(cfg, ids)
+    rec = Recorder()
+    r = call(handler, {nm: rec.make(nm) for nm in uniq})
+    if r != ("ok",):
+        bad("complete-map-refused", r, "ok")
+        return None
+    got = [c[0] for c in rec.calls]
+    if got != names:
+        bad("wrong-call-sequence", got, names)
+        return None
+    for (nm, val), (_, want) in zip(rec.calls, exp):
+        if H.tree(val) != want:
+            bad("wrong-value-delivered", [nm, repr(H.tree(val))], [nm, repr(want)])
+            return None
+        if isinstance(val, (list, dict, Wrapped)) or hasattr(val, "getSectionAttributes"):
+            if id(val) not in ids:
+                bad("delivered-object-not-in-tree", [nm, repr(H.tree(val))], "the tree's own object")
+                return None
+    if uniq:
+        rec2 = Recorder()
+        r = call(handler, {nm: rec2.make(nm) for nm in uniq[1:]})
+        if r[0] != "config-error" or rec2.calls:
+            bad("incomplete-map-not-all-or-nothing", [r, [c[0] for c in rec2.calls]], ["config-error", []])
+            return None
+    return rec.calls
+
+
+def check_routes(S, sch, hist, text, base_exp, acc, case, tier, wide=True):
+    """the wave-3 axis on one accepted node (>= 1 entry) whose other variants all passed.
+    wide=False (quick tier, members with two items under test): single specifiers and the two-load session only."""
+    specs = route_specs(S, hist, tier)
+    # override lists: every single specifier; the first together with the last; thorough: every two neighbours
+    lists = [((s[0],), "override", s[1], s[2]) for s in specs]
+    prim, seen_t = [], set()           # one specifier (the first spelling) per addressed (container, key)
+    for s_ in specs:
+        if s_[5] not in seen_t:
+            seen_t.add(s_[5])
+            prim.append(s_)
+    if len(prim) >= 2 and wide:
+        pairs = [(0, len(prim) - 1)]
+        if tier != "quick":
+            pairs += [(i, i + 1) for i in range(len(prim) - 1) if (i, i + 1) != pairs[0]]
+        for i, j in pairs:
+            lists.append(((prim[i][0], prim[j][0]), "override-list", max(prim[i][1], prim[j][1]),
+                          prim[i][2] + "+" + prim[j][2]))
+
+    def judge(obs, route, ovs, exp, **tags):
+        """-> (cfg, handler, exp, bad) when the load was accepted as the reference says, None when there is
+        nothing to compare, False after a violation"""
+        acc.ev()
+        c = dict(case, route={"kind": route, "overrides": list(ovs)})
+        tg = dict(tags, route=route)
+
+        def bad(kind, observed, expected):
+            acc.violation(kind, c, observed, expected, tags=dict(tg, kind=kind))
+            return False
+        if obs[0] == "internal":
+            d = core.exc_desc(obs[1])
+            acc.violation("internal-error", c, d, "a configuration and its handler",
+                          tags=dict(tg, kind="internal-error", exc=d["class"], where=d["where"]))
+            return False
+        if exp is None:
+            acc.cls("route:%s unspecified-or-refused-by-the-reference" % route)
+            return None
+        if obs[0] != "ok":
+            acc.cls("route:%s verdict-disagreement(C14's)" % route)
+            acc.extra["route_verdict_disagreements"] += 1
+            return None
+        acc.cls("route:%s accepted" % route)
+        acc.extra["route/" + route] += 1
+        if len(exp) >= 2:
+            acc.nt()
+        return obs[1], obs[2], exp, bad
+
+    def expected(ovs):
+        """(entries of the text edited as the overrides say, addressed containers) or (None, ()) """
+        if not ovs:
+            return base_exp, ()
+        try:
+            edited, addressed = OV.edit(S, hist, ovs)
+        except OV.MustReject:
+            return None, ()
+        ref = R.decide(S, edited)
+        if ref.verdict != "A":
+            return None, ()
+        return ref.entries, addressed
+
+    def session(ovs, route, first_text, **tags):
+        """one loader object serves two loads: first_text (None = the same text), then the text"""
+        ld = make_loader(sch, ovs)
+        exp, addressed = expected(ovs)
+        note(ovs, exp, addressed)
+        if first_text is None:
+            j1 = judge(load_on(ld, text), route, ovs, exp, step=1, **tags)
+            if not j1:
+                return j1 is None
+            calls1 = check_delivery(*j1)
+            if calls1 is None:
+                return False
+        else:
+            j1 = None
+            load_on(ld, first_text)
+        j2 = judge(load_on(ld, text), route, ovs, exp, step=2, **tags)
+        if not j2:
+            return j2 is None
+        if check_delivery(*j2) is None:
+            return False
+        if j1 is not None:
+            # the handler of the first load after the second load: unchanged
+            h1, bad = j1[1], j1[3]
+            if len(h1) != len(exp):
+                return bad("first-handler-changed-by-second-load", len(h1), len(exp))
+            rec = Recorder()
+            r = call(h1, {nm: rec.make(nm) for nm, _ in exp})
+            if r != ("ok",) or len(rec.calls) != len(calls1) or \
+                    any(a[0] != b[0] or a[1] is not b[1] for a, b in zip(rec.calls, calls1)):
+                return bad("first-handler-changed-by-second-load", [r, [c[0] for c in rec.calls]],
+                           [c[0] for c in calls1])
+        acc.extra["loader-sessions"] += 1
+        return True
+
+    def note(ovs, exp, addressed):
+        if exp is None:
+            return
+        below = 0
+        for node in addressed:
+            if node.type is not None:
+                below += sum(1 for it in M.eff_items(S, node.type.lower()) if it.handler)
+        if below:
+            acc.extra["override-loads-addressing-a-section-that-holds-handlers"] += 1
+        if ovs and S.handler:
+            acc.extra["override-loads-with-schema-handler"] += 1
+        if ovs and max(len(o.split("=", 1)[0].split("/")) for o in ovs) >= 3:
+            acc.extra["override-loads-two-sections-deep"] += 1
+
+    # the first list (or no override at all) runs as a two-load session of one loader object
+    first = lists[0] if lists else ((), "plain", 0, "none")
+    if not session(first[0], "same-loader-two-loads", None, components=first[2], by=first[3]):
+        return False
+    for ovs, route, ncomp, how in lists[1:]:
+        exp, addressed = expected(ovs)
+        if exp is None:
+            # the reference refuses the edited text or is silent about it: nothing to compare (C14's subject)
+            acc.cls("route:%s unspecified-or-refused-by-the-reference" % route)
+            continue
+        note(ovs, exp, addressed)
+        j = judge(H.load(sch, text, overrides=list(ovs)), route, ovs, exp, components=ncomp, by=how)
+        if j is False or (j and check_delivery(*j) is None):
+            return False
+    if wide:
+        # the same text through an ExtendedConfigLoader that was given no option, the whole text arriving through
+        # %include: one load does both - the including loader IS an option-less ExtendedConfigLoader
+        import ZConfig.cmdline
+        ld = including_loader(ZConfig.cmdline.ExtendedConfigLoader, sch, text)
+        j = judge(load_on(ld, "%include part.conf\n"), ROUTES[3], (), base_exp)
+        if j is False or (j and check_delivery(*j) is None):
+            return False
+    if tier != "quick":
+        # a loader object (carrying the first specifier, if any) that has loaded another text before: this
+        # text without its last event, accepted or not
+        other = H.render_events(tuple(hist)[:-1])
+        if not session(first[0], ROUTES[4], other, components=first[2], by=first[3]):
+            return False
+    acc.extra["route-nodes"] += 1
+    if specs:
+        acc.extra["route-nodes-with-overrides"] += 1
+    return True
+
+
 def check_case(S, sch, hist, text, acc, mid):
     obs = H.load(sch, text)
     ref = R.decide(S, hist)
@@ -517,7 +811,11 @@ def check_case(S, sch, hist, text, acc, mid):
     acc.extra["handler_calls_checked"] += 3 * len(uniq) + 5
     if not uniq:
         return True
-    return check_callables(handler, [(c[0], c[1]) for c in first_calls], uniq, mid.get("tier", TIER), bad, acc)
+    tier = mid.get("tier", TIER)
+    if not check_callables(handler, [(c[0], c[1]) for c in first_calls], uniq, tier, bad, acc):
+        return False
+    return check_routes(S, sch, hist, text, exp, acc, case, tier,
+                        wide=tier != "quick" or len(mid["label"]) <= 1)
 
 
 def shard(member, acc):
@@ -557,18 +855,47 @@ def run(tier):
              "with the first (thorough: also the last) name missing.  Expected in every case: exactly the reference entries whose "
              "name holds a non-None object are called, once, in order, with the identical value objects; on "
              "missing / duplicate names a configuration error and no call.  "
-             "Non-trivial = accepted sequence with >= 2 handler entries.",
+             "On the same nodes additionally the axis HOW THE TEXT IS LOADED (routes): (h) EVERY single override "
+             "specifier 'path/key=value' whose path addresses a section the text holds at any depth - each component "
+             "spelled by the section's name if it has one, else by its type, the last component by both (the letter "
+             "case of components is C14's subject), resolved by the first-match rule of "
+             "C14's statement - or the top level, and whose key is a declared key / multikey of the addressed container "
+             "(wildcard key: an undeclared name), loaded through loadConfigFile(overrides=); (i) override lists over "
+             "the specifiers with distinct (container, key) targets: the first with the last (thorough: every two "
+             "neighbours); (j) one "
+             "loader object (ExtendedConfigLoader carrying the first specifier, ConfigLoader if the node offers none) "
+             "serving two loads of the text - both handlers checked, and the first one again after the second load; "
+             "(k) an ExtendedConfigLoader without options and (l) the whole text arriving through %include of a main "
+             "file, in one load (an option-less ExtendedConfigLoader that includes); (m, thorough) "
+             "a loader (carrying the first specifier, if any) that loaded a different text (the text without its last "
+             "event) before.  Quick tier: (i) and (k, l) on the schemas with <= 1 item under test, (h) and (j) on all.  "
+             "Expected on every route: len, call sequence and delivered values (identical with the "
+             "objects of the tree returned by THAT load) equal to the reference entry list of the text edited as the "
+             "overrides say (vz/ref/overrides.py + vz/ref/match.py), all-or-nothing with the first name missing.  "
+             "Non-trivial = accepted (text, route) with >= 2 handler entries.",
         bounds={"schemas": len(fam), "depth": sorted(set(m[4] for m in fam)),
                 "callable_kinds": list(KIND_NAMES), "shared_kinds": list(SHARED_KINDS),
                 "mapping_kinds": [k for k, _ in map_kinds()],
                 "none_sets": "all subsets of the distinct names for <= %d names, else sizes 1, %sn-1, n"
                              % ((3, "2 (<= 4 names), ") if tier == "quick" else (6, "2, ")),
                 "all_or_nothing_with_none_or_falsy_others": "first and last name" if tier == "quick" else "every name",
-                "single_among_none": tier != "quick"},
+                "single_among_none": tier != "quick",
+                "routes": list(ROUTES_QUICK if tier == "quick" else ROUTES),
+                "override_paths": "every section of the text reachable by first-match addressing, all depths (<= 3 "
+                                  "section components occur), components spelled by name if named else by type, "
+                                  "the last component by both",
+                "override_keys": "every declared key / multikey of the addressed container, 'zz' for a wildcard key; "
+                                 "one convertible value ('ov', '9')",
+                "override_lists": "singles; first+last" + (" (schemas with <= 1 item under test)" if tier == "quick"
+                                                           else "; neighbours"),
+                "include_route": "schemas with <= 1 item under test" if tier == "quick" else "all schemas"},
         assumptions=["reference entry order from vz/ref/match.py (finish order of containers)",
                      "map keys that are not valid basic-keys are not generated (statement silent)",
                      "mapped objects that are neither None nor callable, and callables that raise, are not "
-                     "generated (statement silent)"])
+                     "generated (statement silent)",
+                     "what an override does to the VALUES is C14's subject: routes whose verdict differs from the "
+                     "reference on the edited text are counted (route_verdict_disagreements), not judged here",
+                     "loadConfig(url) / loadURL differ from loadFile only in how the resource is opened (not a route)"])
     core.pmap(shard, fam, run.acc, shard_budget=1800.0)
     a = run.acc
     run.require(sum(v for k, v in a.classes.items() if k.startswith("accepted-") and k != "accepted-0-entries"
@@ -581,6 +908,18 @@ def run(tier):
     run.require(a.extra.get("mixed-kind-nodes", 0) > 500, "too few nodes with >= 2 distinct names for mixed kinds")
     run.require(a.extra.get("none-sets", 0) > 5000, "too few sets of None-mapped names")
     run.require(a.extra.get("wave2_maps_checked", 0) > 100000, "few maps of the what-is-mapped axis")
+    for r in (ROUTES_QUICK if tier == "quick" else ROUTES):
+        few = 5000 if r in ("override-list", ROUTES[3]) else 100000
+        run.require(a.extra.get("route/" + r, 0) > few, "route %s accepted on too few nodes" % r)
+    run.require(a.extra.get("override-loads-addressing-a-section-that-holds-handlers", 0) > 50000,
+                "too few override loads whose addressed section holds handler-bearing items")
+    run.require(a.extra.get("override-loads-two-sections-deep", 0) > 50000,
+                "too few override loads addressing a section inside a section")
+    run.require(a.extra.get("override-loads-with-schema-handler", 0) > 50000,
+                "too few override loads under a schema-level handler")
+    run.require(a.extra.get("loader-sessions", 0) > 50000, "too few two-load sessions of one loader object")
+    run.require(a.extra.get("route_verdict_disagreements", 0) * 100 <= a.extra.get("route/override", 0),
+                "more than 1% of the override loads disagree with the reference on the verdict")
     return run
 
 
@@ -599,7 +938,7 @@ def replay(body):
         print("text:\n" + case["text"])
         print("reference entries:", [n for n, _ in R.decide(S, hist).entries])
         for v in acc.violations.values():
-            print("REPLAY violation:", v["kind"], "tags=", v["tags"], "observed=", v["observed"],
-                  "expected=", v["expected"])
+            print("REPLAY violation:", v["kind"], "tags=", v["tags"], "route=", v["case"].get("route", "loadConfigFile"),
+                  "observed=", v["observed"], "expected=", v["expected"])
             rc = 1
     return rc
